@@ -152,6 +152,48 @@ def run(tier, seed):
                           f"event {v['k']} of session rejected: {v['verdict']}",
                           {"source": src, "steps": steps, "rejected_event": traces[i]["events"][v["k"] - 1],
                            "backend": "z3"})
+    # the native-deduction route and the `sugar` executable route of the same property: sessions with solve() through the
+    # module backends answered by a correct stand-in solver (harness/standin.py), and through the sugar executable
+    # answered by a scripted correct conversation (checks/c03.py); final ret / sol judged by Trace_Session as above
+    small = [(src, steps) for src, steps in sc if src in ("A", "B", "R") and any(x["a"] == "solve" for x in steps)
+             and not any(x["a"] == "int_var" and x["hi"] - x["lo"] > 10 for x in steps)]
+    small = small[:: max(1, len(small) // (600 if tier == "quick" else 6000))]
+    for bi, backend in enumerate(("cspuz_core", "csugar", "enigma_csp")):
+        part = [(i, steps) for i, (_, steps) in enumerate(small) if i % 3 == bi]
+        ntr = S.execute(part, backend)
+        nver = S.judge(chk, ntr, "native_" + backend)
+        steps_of = dict(part)
+        for tr in ntr:
+            v = nver[tr["t"]]
+            chk.note_case({"native": backend, "steps": steps_of[tr["t"]]}, True)
+            if v["verdict"] != "ok":
+                chk.violation({"clause": v["verdict"], "route": "native-deduction (correct stand-in solver)"},
+                              f"event {v['k']} of a session through backend {backend}: {v['verdict']}",
+                              {"source": "native", "backend": backend, "steps": steps_of[tr["t"]],
+                               "rejected_event": tr["events"][v["k"] - 1]})
+    from checks import c03
+    sess = [{"kind": "session", "steps": [x for x in steps if x["a"] not in ("find_answer", "solve", "config")], "small": True}
+            for _, steps in small[:: max(1, len(small) // (48 if tier == "quick" else 480))]]
+    cjobs = [(i, sp, seed * 1000 + i, None) for i, sp in enumerate(sess)]
+    parts = chunks(cjobs, NPROC)
+    for i, p in enumerate(parts):
+        d = chk.dir / f"wire{i}"
+        d.mkdir(exist_ok=True)
+        parts[i] = [(a, b, c, str(d)) for (a, b, c, _) in p]
+    with RobustPool(NPROC) as pool:
+        outs = pool.map(c03.record_conversations, parts)
+    ctraces = [x for o in outs for x in o[1]]
+    cver = S.judge(chk, ctraces, "sugar_conversations")
+    for tr in ctraces:
+        v = cver[tr["t"]]
+        chk.note_case({"sugar": sess[tr["t"]]["steps"]}, True)
+        if v["verdict"] != "ok":
+            chk.violation({"clause": v["verdict"], "route": "refinement loop through the sugar executable (correct scripted solver)"},
+                          f"solve() through the sugar executable: {v['verdict']}",
+                          {"source": "sugar", "steps": sess[tr["t"]]["steps"] + [{"a": "solve"}], "backend": "sugar",
+                           "rejected_event": tr["events"][v["k"] - 1]})
+    chk.extra["sessions_through_native_stand_in"] = len(small)
+    chk.extra["sessions_through_the_sugar_executable"] = len(ctraces)
     c01.repo_tests_part(chk, ("solve",))
     ex = next((steps for s, steps in sc if s == "R" and any(x["a"] == "solve" for x in steps)), None)
     chk.sample({"source": "R", "steps": ex})
@@ -164,7 +206,8 @@ def run(tier, seed):
                              "(quick: a seeded half; thorough: all, plus a simulated 4-variable universe)" % n_loop)
     chk.assumptions = [
         "the adversarial backend answers correctly for the constraints it actually received (re-checked by TLC per run)",
-        "native-deduction route: reply parsing is covered by C03; no real Sugar/csugar/cspuz_core offline",
+        "no real Sugar/csugar/cspuz_core offline: the native-deduction route runs against a correct stand-in solver module, "
+        "the sugar executable route against a scripted correct conversation (every reply text is also enumerated in C03)",
         "only answer-key variables are compared; the 'no answer key' warning is not an error",
     ]
     return chk.finish()
@@ -172,8 +215,14 @@ def run(tier, seed):
 
 def replay(path):
     data = json.loads(open(path).read())
-    if data["sig"].get("route") == "z3-session":
-        return c01.replay(path)
+    route = data["sig"].get("route", "")
+    if route == "z3-session" or route.startswith("native"):
+        return c01.replay(path)          # sessions re-executed (native module backends: with the stand-in solver)
+    if route.startswith("refinement loop through the sugar"):
+        for c in data["cases"]:          # the scripted conversation is rebuilt by ./check C02 from the seed; shown as recorded
+            print(json.dumps(c)[:1500])
+        print(f"VIOLATION property={PID} replay={path}")
+        return 1
     chk = Check(PID + "_replay", "quick", 0)
     behs = [dict(c, facts=c["expected_facts"]) for c in data["cases"]]
     recs = run_behaviours(list(enumerate(behs)))
